@@ -6,11 +6,11 @@ from checks import ddcommon
 
 META = {
     "title": "connectives / ite / constants / variables / eval / cofactors",
-    "technique": "Rocq proof over Gallina models of apply for the BDD and the complement-edge BDD (BCDD) kind (terminal cases + Shannon expansion + arbitrary cache; BCDD: reduce with tag normalisation, terminal_and/terminal_xor, the 8 operators derived by tag flips, ite, eval with complement parity, cofactors, var/const) refining the pointwise spec layer; correspondence: every result of the real BDD/BCDD/ZBDD managers is lifted to a snapshot and compared, by the extracted interpreter and spec, on all assignments; for BCDD additionally the extracted apply model is replayed on every snapshot and must return the real result edge itself",
+    "technique": "Rocq proof over Gallina models of apply for the BDD and the complement-edge BDD (BCDD) kind (terminal cases + Shannon expansion + arbitrary cache; BCDD: reduce with tag normalisation, terminal_and/terminal_xor, the 8 operators derived by tag flips, ite, eval with complement parity, cofactors, var/const) refining the pointwise spec layer; correspondence: every result of the real BDD/BCDD/ZBDD managers is lifted to a snapshot and compared, by the extracted interpreter and spec, on all assignments; for BCDD and for ZBDD additionally the extracted apply model of the kind is replayed on every snapshot and must return the real result edge itself; ZBDD kind: Gallina model of the Boolean interface (coq/DD/ZbddBool.v after oxidd-rules-zbdd/src/apply_rec.rs and lib.rs: tautology chain lookup, apply_not = taut(0) \\ f, apply_symm_diff, apply_ite with its level-dependent tautology short-cuts and the intsec/diff hi-branch patterns, the derivation of the 8 operators, var_edge with its don't-care chain, eval_edge with bit set + ones counter, cofactors) proved against the set-family semantics of C09 and its Boolean view",
     "category": "proof",
     "design_ref": "DESIGN.md section 5, C02",
-    "level_text": "Theorems (coq/Props/C02.v): the apply model with its terminal short-cuts returns, for every well-formed table, cache and operand tuple, an edge whose interpretation is the pointwise connective; eval-walk equals the interpretation; children are the Shannon cofactors - proved for the plain BDD kind (C02_*) and for the complement-edge kind (C02_bcdd_*: coq/DD/ApplyBcdd.v mirrors complement_edge/mod.rs and apply_rec.rs; not, and, or, nand, nor, xor, equiv, imp, imp_strict, ite, var, not_var, f, t, eval, cofactors; for every lossy cache and every operand order; the result is the unique edge of its function, so it does not depend on cache or history). ZBDD connectives: correspondence sweep here + the set-operation proofs of C09. Tie to the code: all pairs of the 256 three-variable functions for each of the 8 binary operators, not, sampled ite triples, constants/variables, eval and cofactors, per kind (BDD, BCDD, ZBDD) under a seed-chosen variable order (all 6 in the thorough tier), random operands over 4..7 variables, 1/2/8 worker threads; each result is checked by the extracted sem on the lifted node table against the extracted spec. BCDD cases are run a second time through ocaml/c02b_main.ml: every not/binary/ite/var/const/eval/cofactors operation is replayed by the extracted BCDD model on the lifted snapshot (every 8th also without cache and with the reverse operand order) and must yield the real result edge without needing a new node.",
-    "level_note": "Trusted: Coq kernel, extraction, OCaml drivers, Rust harness, public accessor API. The models of apply are hand-written (BDD: coq/DD/Apply.v, BCDD: coq/DD/ApplyBcdd.v); the ZBDD apply algorithms have no apply-level model here (set operations: C09); schedule independence of the parallel recursor is C07. The edge order f < g used by the BCDD code to normalise commutative operand pairs is a parameter of the model (theorems hold for every order).",
+    "level_text": "Theorems (coq/Props/C02.v): the apply model with its terminal short-cuts returns, for every well-formed table, cache and operand tuple, an edge whose interpretation is the pointwise connective; eval-walk equals the interpretation; children are the Shannon cofactors - proved for the plain BDD kind (C02_*) and for the complement-edge kind (C02_bcdd_*: coq/DD/ApplyBcdd.v mirrors complement_edge/mod.rs and apply_rec.rs; not, and, or, nand, nor, xor, equiv, imp, imp_strict, ite, var, not_var, f, t, eval, cofactors; for every lossy cache and every operand order; the result is the unique edge of its function, so it does not depend on cache or history). ZBDD kind (C02_zbdd_*, 25 theorems; model coq/DD/ZbddBool.v on top of the C09 model coq/DD/ZbddOps.v): for every ZbddOK table whose tautology chain is present (zchain_ok_b, decided on every real snapshot; C02_zbdd_chain_after_add_vars: holds after add_vars / post_reorder_mut, C02_zbdd_chain_extends: kept by every table extension; C02_zbdd_taut_den / _taut_canon: the chain edge of level l denotes all subsets of the levels below and is the only such edge), every lossy cache satisfying the invariant ZCacheOKB (all nine operator codes), every operand order and fuel >= nlevels+1: not, and, or, nand, nor, xor, equiv, imp, imp_strict (C02_zbdd_apply_op_sound / _bfun, exactly as the code derives them: intsec, union, symm_diff, diff(g,f), not = taut(0) \\ f, imp = ite(f,g,taut(0))), ite (C02_zbdd_apply_ite_sound / _bfun: all terminal cases incl. the two level-dependent tautology short-cuts, the six recursion patterns), constants, var (with its don't-care nodes above), not_var return an edge whose Boolean view over all levels (semz / C09_bool_view, zbfun_of per assignment) is the pointwise connective; table only extended, ZbddOK + chain + cache invariant preserved; C02_zbdd_apply_op_families gives the family reading (C09); C02_zbdd_result_unique / _view_canon / _history_independent: the result is the only edge with its view (independent of cache, order, history); C02_zbdd_eval_walk_sem / _eval_edge_assignment: the eval walk with the level bit set and the ones counter equals the interpretation and never underflows; C02_zbdd_cofactors: cofactors = children = (subset1, subset0) of the top variable, as families and literally as what the C09 subset model returns. Tie to the code: all pairs of the 256 three-variable functions for each of the 8 binary operators, not, sampled ite triples, constants/variables, eval and cofactors, per kind (BDD, BCDD, ZBDD) under a seed-chosen variable order (all 6 in the thorough tier), random operands over 4..7 variables, 1/2/8 worker threads; each result is checked by the extracted sem on the lifted node table against the extracted spec. BCDD cases are run a second time through ocaml/c02b_main.ml: every not/binary/ite/var/const/eval/cofactors operation is replayed by the extracted BCDD model on the lifted snapshot (every 8th also without cache and with the reverse operand order) and must yield the real result edge without needing a new node. ZBDD cases are run a second time through ocaml/c02z_main.ml in the same way on the extracted ZBDD model (zapply_not / zapply_op / zapply_ite / zvar / znot_var / zconst / zeval_edge / zcofactors; hypotheses zbdd_ok_b and zchain_ok_b evaluated per snapshot; restrict operations of the histories through zrestrict_edge, see C04): quick tier ~565 k binary, 30 k ite, 300 not / eval / cofactors replays, every one returning the real edge.",
+    "level_note": "Trusted: Coq kernel, extraction, OCaml drivers, Rust harness, public accessor API. The models of apply are hand-written (BDD: coq/DD/Apply.v, BCDD: coq/DD/ApplyBcdd.v); ZBDD: coq/DD/ZbddBool.v on top of coq/DD/ZbddOps.v (C09); the manager's ZBDDCache vector of tautology edges is modelled as a lookup of the chain in the unique table (equal by C02_zbdd_taut_canon whenever the chain exists, checked on every snapshot through CONST 1 = taut(0)); nested union/intsec/diff calls of apply_ite get the fuel of the enclosing call (proved sufficient); schedule independence of the parallel recursor is C07. The edge order f < g / f > g used by the BCDD and ZBDD code to normalise commutative operand pairs is a parameter of the models (theorems hold for every order).",
 }
 ALLOWED_AXIOMS = ()
 
